@@ -164,6 +164,7 @@ Proof.
   - cbn [fst cbs]. rewrite filter_true by reflexivity. rewrite app_nil_r. reflexivity.
   - cbn [fst cbs]. rewrite filter_true by reflexivity. rewrite app_nil_r. reflexivity.
   - destruct (saved s); cbn [fst cbs]; rewrite filter_true by reflexivity; rewrite app_nil_r; reflexivity.
+  - destruct (saved s); cbn [fst cbs]; rewrite filter_true by reflexivity; rewrite app_nil_r; reflexivity.
   - cbn [fst]. rewrite filter_true by reflexivity. rewrite app_nil_r. reflexivity.
 Qed.
 
@@ -209,6 +210,8 @@ Proof.
     apply Nat.eqb_eq in Hd. destruct (saved s); [|discriminate Hd].
     split; [split; [cbn [length] in *; lia|reflexivity]|exact Hok].
   - cbn [fst saved flag length stack_inv]. split; [split; [lia|split; [reflexivity|exact Hs]]|exact Hok].
+  - destruct (saved s) as [|b r]; cbn [length] in Hok; [discriminate|].
+    cbn [fst saved flag length stack_inv] in *. split; [split; [lia|apply Hs]|exact Hok].
   - destruct (saved s) as [|b r]; cbn [length] in Hok; [discriminate|].
     cbn [fst saved flag length stack_inv] in *. split; [split; [lia|apply Hs]|exact Hok].
   - cbn [fst]. split; [split; [lia|exact Hs]|exact Hok].
@@ -290,7 +293,7 @@ Proof.
       - intros [Hle HR]. destruct (Nat.eq_dec i base) as [->|Hne].
         + rewrite Nat.sub_diag in HR. exfalso. exact (Hno c HR).
         + split; [lia|exact HR]. }
-    destruct o as [f st sf l|items| |b| | |ev snd a single];
+    destruct o as [f st sf l|items| |b| | | |ev snd a single];
       try (cbn [registered_ix registered]; split; [exact IHm|];
            apply N; [|reflexivity]; intros c HR; apply Registered_head in HR;
            destruct HR as [(f' & st' & sf' & l' & H & _) _]; discriminate H).
